@@ -77,10 +77,40 @@ def coordsToks : Coords UInt64 → Tok
 
 /-! ### JSON text: the total RFC 8259 parser of Text.lean, numbers by exact round-to-nearest-even -/
 
-/-- RFC 8259 `number` grammar check + exact decimal → binary64 -/
-def jsonPn (tok : List Char) : Option UInt64 := if Dec.jsonNumberOk tok then Dec.toBits tok else none
+/-- RFC 8259 `number` grammar check + exact decimal → binary64 (json.Unmarshal: a literal whose value overflows
+binary64 is an UnmarshalTypeError, not ±Inf) -/
+def jsonPn (tok : List Char) : Option UInt64 :=
+  if Dec.jsonNumberOk tok then (Dec.toBits tok).filter Dec.isFiniteBits else none   -- a literal that overflows has no value
 
 def parseJson (s : List Char) : Option BTree := Json.parse jsonPn s
+
+/-- for generator-written documents: a number literal of the RFC grammar whose value overflows binary64 is kept
+as ±Inf bits.  json.Unmarshal converts a literal only when it STORES it (into `Coordinates interface{}`): there an
+overflowing literal is an UnmarshalTypeError ("number 1e400") that is saved and returned at the end, even if a later
+duplicate member replaces the value; in a skipped (foreign) member the literal is only scanned. -/
+def rawPn (tok : List Char) : Option UInt64 :=
+  if !Dec.jsonNumberOk tok then none else
+  match Dec.toBits tok with
+  | some b => some b
+  | none =>   -- Dec.litToBits declines decimal exponents beyond ±5000 (it would compute 10^|scale|): settle them by magnitude
+    (Dec.parseLit tok).bind fun l =>
+      let sign : UInt64 := if l.neg then 0x8000000000000000 else 0
+      if l.mant = 0 then some sign
+      else if l.scale > 5000 then some (sign ||| 0x7ff0000000000000)          -- ≥ 1e5000: overflow
+      else if l.scale + (Dec.ndigits l.mant : Int) < -400 then some sign        -- < 1e-400: rounds to ±0
+      else none
+
+def parseJsonRaw (s : List Char) : Option BTree := Json.parse rawPn s
+
+partial def hasInf : BTree → Bool
+  | .num x => !Dec.isFiniteBits x
+  | .arr xs => xs.any hasInf
+  | .obj kvs => kvs.any fun kv => hasInf kv.2
+  | _ => false
+
+def coordsOverflow : BTree → Bool
+  | .obj kvs => kvs.any fun kv => foldKey kv.1 == "coordinates".toList && hasInf kv.2
+  | _ => false
 
 def pairsOf : Tok → List (UInt64 × List Char)
   | b :: r :: t => match parseU64 b with
@@ -100,7 +130,7 @@ def geomClass : BGeom → String
 
 def errName : Err → String
   | .unsupported => "unsupported" | .nonFinite => "nonfinite" | .invalid => "invalid"
-  | .unmarshalType => "unmarshaltype" | .nilDeref => "runtime"
+  | .unmarshalType => "unmarshaltype" | .nilDeref => "runtime" | .panicNil => "panic"
 
 def showGeomRes : Except Err BGeom → String
   | .ok g => "ok " ++ Proto.geomStr g
@@ -161,7 +191,10 @@ def judgeLine (line : String) : String :=
       let m := match toGeoJSON g with
         | .ok o => "ok " ++ hexStr o.type ++ " " ++ " ".intercalate (coordsToks o.coordinates)
         | .error e => "err " ++ errName e
-      if Rfc.supported g && rhs.head? != some "ok" then s!"SPEC {cls} ToGeoJSON-rejected-supported-type {rhsS}"
+      -- the nil interface value is outside the property: the model says the call panics (Err.panicNil)
+      if Rfc.isNil g then (if rhs.head? == some "panic" then s!"OK {cls}" else s!"DIFF {cls} model=panic impl={rhsS}")
+      else if rhs.head? == some "panic" then s!"SPEC {cls} ToGeoJSON-{rhsS}"
+      else if Rfc.supported g && rhs.head? != some "ok" then s!"SPEC {cls} ToGeoJSON-rejected-supported-type {rhsS}"
       else if !Rfc.supported g && rhs.head? == some "ok" then s!"SPEC {cls} ToGeoJSON-accepted-unsupported-type"
       else if m == rhsS then s!"OK {cls}" else s!"DIFF {cls} model={m} impl={rhsS}"
   | "enc" :: gt =>
@@ -177,6 +210,7 @@ def judgeLine (line : String) : String :=
       -- the stdlib contract Json.NumFmt, checked on every finite coordinate that occurs
       let contractBad := table.filter fun (b, r) =>
         fin b && !(!r.isEmpty && r.all Json.numChar && jsonPn r == some b)
+      if Rfc.isNil g then (if res.head? == some "panic" then s!"OK {cls}" else s!"DIFF {cls} model=panic impl={rhsS}") else
       match res with
       | ["ok", h] =>
         if !Rfc.supported g then s!"SPEC {cls} encoder-accepted-unsupported-type"
@@ -214,7 +248,8 @@ def judgeLine (line : String) : String :=
     | some (g, _) =>
       let cls := "rt-" ++ tagOf g
       let guard := Rfc.supported g && Rfc.allFinite fin g && Rfc.firstMemberNonEmpty g
-      if guard && rhsS != "ok " ++ Proto.geomStr g then s!"SPEC {cls} decode-of-encode-differs got={rhsS}"
+      if Rfc.isNil g then (if rhs.head? == some "panic" then s!"OK {cls}" else s!"DIFF {cls} model=panic impl={rhsS}")
+      else if guard && rhsS != "ok " ++ Proto.geomStr g then s!"SPEC {cls} decode-of-encode-differs got={rhsS}"
       else if rhs.head? == some "panic" then s!"SPEC {cls} {rhsS}"
       else
         let m := modelRt g
@@ -223,9 +258,16 @@ def judgeLine (line : String) : String :=
     match hexToText ((h.drop 1).toString) with
     | none => "BAD hex"
     | some txt =>
-      match parseJson txt with
-      | none => s!"DIFF dec-unparsed driver-cannot-parse-generated-document {String.ofList txt}"
+      match parseJsonRaw txt with
+      | none =>
+        -- not an RFC 8259 JSON text (total parser of Text.lean): json.Unmarshal must answer SyntaxError
+        if rhs == ["err", "syntax"] then "OK dec-notjson"
+        else if rhs.head? == some "panic" then s!"SPEC dec-notjson decoder-{rhsS}"
+        else s!"DIFF dec-notjson driver-parser-rejects-the-text impl={rhsS} doc={String.ofList txt}"
       | some t =>
+        if coordsOverflow t then
+          (if rhs == ["err", "unmarshaltype"] then "OK dec-number-overflow"
+           else s!"DIFF dec-number-overflow model=err unmarshaltype impl={rhsS} doc={String.ofList txt}") else
         let m := fromTree t
         let cls := "dec-" ++ (match m with | .ok g => geomClass g | .error e => "err-" ++ errName e)
         if rhs.head? == some "panic" then s!"SPEC {cls} decoder-{rhsS}"
@@ -254,6 +296,10 @@ def judgeLine (line : String) : String :=
       else if showGeomRes m == rhsS then s!"OK {cls}"
       else s!"DIFF {cls} model={showGeomRes m} impl={rhsS}"
     | _, _ => "BAD parse"
+  | ["fromnil"] =>
+    let m := showGeomRes (fromGeoJSONPtr (none : Option (String × BTree)))
+    if rhs.head? == some "panic" then s!"SPEC fromnil FromGeoJSON-{rhsS}"
+    else if m == rhsS then "OK fromnil" else s!"DIFF fromnil model={m} impl={rhsS}"
   | "skip" :: _ => "OK skipped"
   | _ => "BAD line"
 
